@@ -888,9 +888,12 @@ func firstLineOf(s, marker string) string {
 // RaceBody is the free-running stress body executed by the -race build.
 func RaceBody() int {
 	b := build(c13Spec())
+	// the sequential references come from a second policy object: the shared one meets its first calls concurrently,
+	// so that anything a first call initialises or rewrites lazily is touched by several goroutines at once
+	ref := build(c13Spec())
 	seq := make([]string, len(c13Inputs))
 	for i, in := range c13Inputs {
-		seq[i] = b.P.Sanitize(in)
+		seq[i] = ref.P.Sanitize(in)
 	}
 	var wg sync.WaitGroup
 	start := make(chan struct{})
@@ -904,11 +907,19 @@ func RaceBody() int {
 			for it := 0; it < 2000; it++ {
 				i := (g + it) % len(c13Inputs)
 				var out string
-				switch it % 3 {
+				switch it % 4 {
 				case 0:
 					out = b.P.Sanitize(c13Inputs[i])
 				case 1:
 					out = string(b.P.SanitizeBytes([]byte(c13Inputs[i])))
+				case 2:
+					// a destination that offers nothing but Write
+					var buf bytes.Buffer
+					if err := b.P.SanitizeReaderToWriter(strings.NewReader(c13Inputs[i]), writeOnly{&buf}); err != nil {
+						out = "ERROR: " + err.Error()
+					} else {
+						out = buf.String()
+					}
 				default:
 					out = b.P.SanitizeReader(strings.NewReader(c13Inputs[i])).String()
 				}
